@@ -121,13 +121,25 @@ def t_flood(ctx):
     bus = ctx.bus('A', max_history_size=200)  # large enough that eviction (C13/F11) does not interfere
     rejected = []
 
+    retried = []
+
     async def hP(h, ev):
+        first = None
         for i in range(n):
             c = ctx.ev(C, f'C{i}')
             try:
                 h.dispatch(bus, c)
+                first = first or c
             except Exception:
                 rejected.append(c)
+        if ctx.cfg.get('retry') and rejected and first is not None:
+            await h.wait(first)          # drains the queue (inline)
+            for c in rejected:
+                try:
+                    h.dispatch(bus, c)   # retry with the same event object
+                    retried.append((c, 'accepted'))
+                except Exception:
+                    retried.append((c, 'rejected'))
         return 'p'
 
     ctx.on(bus, P, 'hP', hP)
@@ -150,11 +162,25 @@ def t_flood(ctx):
     ctx.check('C14.idle_after', bool(st.get('idle')) or not st.get('awaited'), why='wait_until_idle blocked')
     pres = list(ctx.events['P1'].event_results.values())
     kids = [x for r in pres for x in r.event_children]
-    for c in rejected:
+    accepted_retry = [c for (c, how) in retried if how == 'accepted']
+    if accepted_retry:
+        ctx.witness('retry accepted')
+    for c in accepted_retry:
+        lab = ctx.label(c)
+        sc = ctx.snap(c)
+        ctx.check('C14.accepted_processed', tr.count('A', lab, 'hC') == 1 and sc['status'] == 'completed' and sc['signal'] is True, ev=lab,
+                  n=tr.count('A', lab, 'hC'), got=(sc['status'], sc['signal']), why='retried dispatch returned normally but the event was not processed')
+    # lineage of the flood (C09): every accepted child exactly once among the children of the dispatching handler's result
+    for r_ in tr.DR:
+        if r_.caller in tr.Eh and r_.ev != 'P1':
+            e = ctx.events[r_.ev]
+            cnt = sum(1 for k in kids if k is e)
+            ctx.check('C09.child_once', cnt == 1, ev=r_.ev, n=cnt)
+    for c in [c for c in rejected if c not in accepted_retry]:
         ctx.check('C14.no_trace', c.event_id not in bus.event_history and not any(k is c for k in kids), ev=ctx.label(c))
         ctx.check('C14.rejected_not_run', tr.count('A', ctx.label(c), 'hC') == 0, ev=ctx.label(c))
     dx = {r.ev for r in tr.DX}
-    ctx.check('C14.raise_iff_rejected', dx == {ctx.label(c) for c in rejected})
+    ctx.check('C14.raise_iff_rejected', dx == {ctx.label(c) for c in rejected} | {ctx.label(c) for (c, how) in retried if how == 'rejected'})
     if st.get('idle'):
         for (bn, lab) in tr.accepted('A'):
             for name in ctx.expected('A', lab):
@@ -228,10 +254,13 @@ def jobs(tier):
         out.append(Job('C14', 's1.restart', t_restart, dict(how='cancel', d=dd), witnesses=('late dispatch accepted',)))
     if tier == 'quick':
         out.append(Job('C14', 's1.flood', t_flood, dict(n_range=[47, 54]), witnesses=('rejection inside a handler',)))
+        out.append(Job('C14', 's1.flood', t_flood, dict(n_range=[50, 53], retry=True), witnesses=('retry accepted',)))
         out.append(Job('C14', 's1.flood', t_flood, dict(n_range=[0, 3])))
     else:
         for a in range(0, 120, 10):
             out.append(Job('C14', 's1.flood', t_flood, dict(n_range=[a, a + 9])))
+            if a >= 50:
+                out.append(Job('C14', 's1.flood', t_flood, dict(n_range=[a, a + 9], retry=True)))
     out += mk('C14', 'roots3', S.roots3())
     out += mk('C14', 'child/await/k1', S.child('await', k=1))
     out += mk('C14', 'flood_idle', S.flood_idle())
